@@ -10,6 +10,7 @@ from __future__ import annotations
 
 import ast
 import itertools
+import json
 import sys
 import types
 from typing import Any, Callable, Dict, List, Optional, Tuple
@@ -352,6 +353,79 @@ def build_cases(tier: str):
     return [(l, s) for s, l in uniq.items()], skipped, T, len(fillers)
 
 
+HISTORY_OPS = ["custom-ok", "custom-rejected", "custom-eval", "default-ok", "default-rejected", "factory"]
+HISTORY_PROBES = ["len(t)", "sqrt(t)", "sum((t, u))", "getattr(t, 'real')", "pow(t, 2)", "len", "sqrt", "abs(len(t))", "max(t, key=len)",
+                  "t + 1", "abs(t)", "max(t, u)", "round(t, 1)", "t.real", "(lambda: t)()", "q", "open('x')"]
+
+
+def _apply_history(op: str):
+    import math
+
+    from semantiva.utils.safe_eval import ExpressionError, ExpressionEvaluator
+
+    custom = ExpressionEvaluator(allowed_funcs={"len": len, "sqrt": math.sqrt, "sum": sum, "getattr": getattr, "pow": pow})
+    try:
+        if op == "custom-ok":
+            custom.compile("t + 1", {"t"})
+        elif op == "custom-rejected":
+            custom.compile("t.__class__", {"t"})
+        elif op == "custom-eval":
+            custom.compile("abs(t) + 1", {"t"})(t=2.0)
+        elif op == "default-ok":
+            ExpressionEvaluator().compile("max(t, 1)", {"t"})(t=2.0)
+        elif op == "default-rejected":
+            ExpressionEvaluator().compile("len(t)", {"t"})
+        elif op == "factory":
+            from semantiva.data_processors.parametric_sweep_factory import ParametricSweepFactory, SequenceSpec
+            from semantiva.examples.test_utils import FloatDataCollection, FloatValueDataSource
+
+            ParametricSweepFactory.create(element=FloatValueDataSource, element_kind="DataSource", collection_output=FloatDataCollection,
+                                          vars={"t": SequenceSpec([1.0])}, parametric_expressions={"value": "t"}, expression_evaluator=custom)
+    except (ExpressionError, ValueError, TypeError):
+        pass
+
+
+_HIST_CHILD = r"""
+import json, sys, logging
+logging.disable(logging.CRITICAL)
+from mc.props import c11
+print(json.dumps(c11.history_child(json.loads(sys.argv[1]))))
+"""
+
+
+def history_child(ops):
+    """In THIS fresh process: apply the history, then judge the probe corpus with default evaluators."""
+    for op in ops:
+        _apply_history(op)
+    out = []
+    for src in HISTORY_PROBES:
+        o, v = judge(src)
+        out.append([src, o, list(v) if v else None])
+    return out
+
+
+def _history_worker(chunk):
+    import os
+    import subprocess
+
+    res = []
+    for ops in chunk:
+        p = subprocess.run([sys.executable, "-c", _HIST_CHILD, json.dumps(ops)], capture_output=True, text=True, env=dict(os.environ), timeout=300)
+        if p.returncode != 0:
+            raise RuntimeError(p.stderr[-500:])
+        res.append((ops, json.loads(p.stdout.strip().splitlines()[-1])))
+    return res
+
+
+def histories(tier: str) -> List[List[str]]:
+    hs: List[List[str]] = [[]] + [[a] for a in HISTORY_OPS]
+    if tier == "thorough":
+        hs += [[a, b] for a in HISTORY_OPS for b in HISTORY_OPS]
+    else:
+        hs += [["custom-ok", "default-ok"], ["factory", "default-rejected"], ["custom-eval", "custom-ok"]]
+    return hs
+
+
 def yaml_slice() -> Tuple[int, List[Violation]]:
     """A slice of unsafe expressions through the YAML derive.parameter_sweep path."""
     from semantiva.utils.safe_eval import ExpressionError
@@ -424,6 +498,17 @@ def check(tier: str, seed: int) -> Result:
             viols.append(Violation(sig, f"[{pos}] {msg}", {"kind": "expr", "expr": src}))
     ny, vy = yaml_slice()
     viols.extend(vy)
+    # histories: what one evaluator was given must not widen what another accepts (each history in a fresh process)
+    hs = histories(tier)
+    base = None
+    nh = 0
+    for part in core.pmap_chunks(_history_worker, hs, chunk=1):
+        for ops, results in part:
+            nh += len(results)
+            for src, outcome, v in results:
+                if v:
+                    viols.append(Violation(v[0] + "|after-history", f"after history {ops}: {v[1]}", {"kind": "history", "ops": ops, "expr": src}))
+    tot["n"] += nh
     exprs = set(c for c in ast.expr.__subclasses__())
     cov_classes = covered_expr_classes(T) | {ast.Constant, ast.Name, ast.Slice, ast.Starred, ast.FormattedValue}
     missing = sorted(c.__name__ for c in exprs if c not in cov_classes and c.__name__ not in
@@ -442,7 +527,7 @@ def check(tier: str, seed: int) -> Result:
         "accepted": tot["accepted"], "rejected": tot["rejected"], "other_exception_on_safe_input": tot["other"],
         "accepted_rejected_by_node_class": {k: {"accepted": v[0], "rejected": v[1]} for k, v in sorted(by_label.items())},
         "templates": len(T), "depth2_fillers": nfill, "skipped_not_roundtrippable": skipped,
-        "yaml_slice": ny,
+        "yaml_slice": ny, "history_probe_evaluations": nh, "histories": len(hs),
         "samples": samples,
         "exhaustive": True,
     }
@@ -454,6 +539,13 @@ def check(tier: str, seed: int) -> Result:
 
 
 def replay(case) -> List[Violation]:
+    if case.get("kind") == "history":
+        out = []
+        for ops, results in _history_worker([case["ops"]]):
+            for src, outcome, v in results:
+                if v and src == case["expr"]:
+                    out.append(Violation(v[0] + "|after-history", v[1], case))
+        return out
     if case.get("kind") == "yaml":
         _, v = yaml_slice()
         return [x for x in v if x.case.get("expr") == case["expr"]]
